@@ -171,12 +171,23 @@ def field_attrs(f, named):
     return docs + attr_list("ts", ts) + attr_list("serde", sd)
 
 
+def field_ty_src(f, params):
+    """the type as written in the item: a type alias (declared next to the item, see alias_lines) where the field has one"""
+    return f["alias"] if f.get("alias") else rust_ty(f.get("serde_ty", f["ty"]), params)
+
+
+def alias_lines(d):
+    """`pub type <Alias> = <type>;` for the fields of d written through an alias (closed types only)"""
+    fs = d["fields"] if d["kind"] == "struct" else [f for v in d["variants"] for f in v["fields"]]
+    return "".join("pub type %s = %s;\n" % (f["alias"], rust_ty(f.get("serde_ty", f["ty"]), ())) for f in fs if f.get("alias"))
+
+
 def fields_src(shape, fields, params):
     if shape == "unit":
         return ""
     if shape == "tuple":
-        return "(" + ", ".join(field_attrs(f, False) + rust_ty(f.get("serde_ty", f["ty"]), params) for f in fields) + ")"
-    return "{ " + ", ".join(field_attrs(f, True) + ("r#" if f["ident"] in KEYWORDS else "") + f["ident"] + ": " + rust_ty(f.get("serde_ty", f["ty"]), params) for f in fields) + " }"
+        return "(" + ", ".join(field_attrs(f, False) + field_ty_src(f, params) for f in fields) + ")"
+    return "{ " + ", ".join(field_attrs(f, True) + ("r#" if f["ident"] in KEYWORDS else "") + f["ident"] + ": " + field_ty_src(f, params) for f in fields) + " }"
 
 
 KEYWORDS = {"type", "enum", "struct", "fn", "let", "match", "ref", "mod", "use", "as", "in", "for", "loop", "move", "pub", "impl", "trait", "where", "while", "yield", "static", "const", "continue", "break", "else", "if", "return", "true", "false", "unsafe", "extern", "dyn", "abstract", "final", "override", "macro", "try", "typeof", "unsized", "virtual", "box", "do", "priv", "become", "async", "await"}
@@ -212,7 +223,7 @@ def to_rust(d):
         if d["optional_fields"] is not None:
             ts.append("optional_fields" if not d["optional_fields"] else "optional_fields = nullable")
         body = fields_src(d["shape"], d["fields"], pnames)
-        return "%s%s%s%spub struct %s%s%s%s" % (docs, derives, attr_list("ts", ts) and attr_list("ts", ts) + "\n", container_serde(d, sd) and container_serde(d, sd) + "\n",
+        return alias_lines(d) + "%s%s%s%spub struct %s%s%s%s" % (docs, derives, attr_list("ts", ts) and attr_list("ts", ts) + "\n", container_serde(d, sd) and container_serde(d, sd) + "\n",
                                               d["ident"], params_src(d), (" " + body) if d["shape"] == "named" else body, "" if d["shape"] == "named" else ";")
     tg = d["tagging"]
     if tg[0] == "internal":
@@ -239,7 +250,7 @@ def to_rust(d):
         if v["as_"] is not None:
             vts.append("as = %s" % rust_str_lit(rust_ty(v["as_"])))
         vs.append(attr_list("ts", vts) + attr_list("serde", vsd) + v["ident"] + ((" " if v["shape"] == "named" else "") + fields_src(v["shape"], v["fields"], pnames)))
-    return "%s%s%s%spub enum %s%s { %s }" % (docs, derives, attr_list("ts", ts) and attr_list("ts", ts) + "\n", container_serde(d, sd) and container_serde(d, sd) + "\n",
+    return alias_lines(d) + "%s%s%s%spub enum %s%s { %s }" % (docs, derives, attr_list("ts", ts) and attr_list("ts", ts) + "\n", container_serde(d, sd) and container_serde(d, sd) + "\n",
                                             d["ident"], params_src(d), ", ".join(vs))
 
 
